@@ -21,7 +21,7 @@ from vlib.runner import Check
 REPLAY = 'props.C17:replay'
 
 QUICK = {
-    'combs': dict(ex_len=1, walk_len=3, walks=12, body_len=1, inputs=1, budget=330),
+    'combs': dict(ex_len=1, walk_len=3, walks=12, body_len=1, inputs=1, budget=260),
     'structures': dict(ex_len=1, walk_len=2, walks=6, body_len=1, inputs=1, budget=150),
 }
 THOROUGH = {
@@ -56,33 +56,35 @@ def run(ck: Check) -> int:
     themes = [t for t in G.C17_THEMES + G.C02_THEMES + G.THEMES if t.name in cfg]
     ck.bound('per_theme', {k: {x: v[x] for x in ('ex_len', 'walk_len', 'body_len', 'inputs', 'budget')} for k, v in cfg.items()})
     ck.bound('annotation_depth', 3)
-    cases, stats = H.build_cases(themes, cfg, ck.seed)
+    tasks = H.make_tasks(themes, cfg, ck.seed)
+    results, stats = H.run_tasks(tasks, evaluator=A.eval_case)
     # the identity program observes to_micheline_value / pack of plain values of every stack type
+    ident = []
     for th in themes:
         for S0 in th.stacks:
             if S0:
                 for V in G.input_vectors(S0, 2, __import__('random').Random(ck.seed)):
-                    cases.append(dict(theme=th.name, S=S0, code=[], V=V, env={}, n=0, id=len(cases)))
+                    ident.append(dict(theme=th.name, S=S0, code=[], V=V, env={}, n=0, id=len(ident)))
+    for r, c in zip(A.run_cases(ident), ident):
+        r.update(cls=H.class_key(c) + 'identity', n=0)
+        results.append(r)
     ck.extra['generation'] = stats
-    results = A.run_cases(cases)
-    by_id = {c['id']: c for c in cases}
     n_var = 0
     for r in results:
-        c = by_id[r['id']]
         if r['status'] != 'ok':
             continue
         n_var += r['variants']
-        sample = None
-        if c['n'] == 1 and c['id'] % 41 == 0:
-            sample = dict(theme=c['theme'], code=c['code'], stack_types=[H.E.tstr(t) for t in c['S']], re_annotations=r['variants'])
-        ck.evaluate(H.class_key(c), sample=sample, n=max(r['variants'], 1))
+        s = r.get('sample')
+        if s is not None:
+            s = dict(s, re_annotations=r['variants'])
+        ck.evaluate(r['cls'], sample=s, n=max(r['variants'], 1))
     for r in results:
         for f in r['findings']:
             ck.violation(f['oid'], f['message'], case=f['case'], replay=REPLAY, wclass=f['wclass'])
     n_to = sum(1 for r in results if r['status'] == 'timeout')
     if n_to:
         ck.obligation('C17::terminates', 'undecided', kind='S', backend='native', detail=f'{n_to} case(s) timed out')
-    ck.note(f'{len(cases)} (program, input) cases x re-annotations = {n_var} relational evaluations')
+    ck.note(f'{len(results)} (program, input) cases x re-annotations = {n_var} relational evaluations')
     ck.exhaustive = False
     return ck.finish('exploration',
                      'R (bounded): outcome, result types, result values and PACK bytes of the real interpreter are invariant under re-annotation '
